@@ -160,6 +160,8 @@ for (f, i, name, before, after) in mine:
                 if verdict == "VIOLATED" and "--all" not in sys.argv:
                     break
             rec["caught"] = [p for p, v in rec["checks"].items() if v["verdict"] == "VIOLATED"]
+    # a mutant can make a unit test spin for ever: nextest gives up on it, the test process lives on - end it
+    sh("pkill -9 -f '%s/repo-target/debug/dep[s]'" % BASE)
     open(res_path, "a").write(json.dumps(rec) + "\n")
     print(rec["file"], rec["line"], rec["op"], rec["outcome"], rec.get("caught", ""), flush=True)
 sh("git -C %s/repo checkout -q -- ." % BASE)
